@@ -131,47 +131,6 @@ theorem C15_select_order (O : ReOracle) (p : String) (ps : List String) (fields 
 
 /-! ## add_field -/
 
-theorem Row.keys_set (row : Row) (k : String) (v : Val) :
-    ∀ x, x ∈ Row.keys (Row.set row k v) ↔ x ∈ Row.keys row ∨ x = k := by
-  induction row with
-  | nil => intro x; simp [Row.set, Row.keys]
-  | cons kv rest ih =>
-    intro x
-    obtain ⟨k', v'⟩ := kv
-    by_cases hkk : k' = k
-    · subst hkk
-      simp only [Row.set, if_true, Row.keys, List.map_cons, List.mem_cons]
-      constructor
-      · rintro (h | h); exact Or.inl (Or.inl h); exact Or.inl (Or.inr h)
-      · rintro ((h | h) | h); exact Or.inl h; exact Or.inr h; exact Or.inl h
-    · have ih' := ih x
-      simp only [Row.keys] at ih'
-      simp only [Row.set, hkk, if_false, Row.keys, List.map_cons, List.mem_cons, ih']
-      constructor
-      · rintro (h | h | h); exact Or.inl (Or.inl h); exact Or.inl (Or.inr h); exact Or.inr h
-      · rintro ((h | h) | h); exact Or.inl h; exact Or.inr (Or.inl h); exact Or.inr (Or.inr h)
-
-theorem Row.get?_set_ne (row : Row) (k k' : String) (v : Val) (h : k' ≠ k) :
-    Row.get? (Row.set row k v) k' = Row.get? row k' := by
-  induction row with
-  | nil => simp [Row.set, Row.get?, h.symm]
-  | cons kv rest ih =>
-    obtain ⟨k0, v0⟩ := kv
-    by_cases h0 : k0 = k
-    · subst h0; simp [Row.set, Row.get?, h.symm]
-    · by_cases h1 : k0 = k'
-      · subst h1; simp [Row.set, h0, Row.get?]
-      · simp [Row.set, h0, Row.get?, h1, ih]
-
-theorem Row.get?_set_eq (row : Row) (k : String) (v : Val) : Row.get? (Row.set row k v) k = some v := by
-  induction row with
-  | nil => simp [Row.set, Row.get?]
-  | cons kv rest ih =>
-    obtain ⟨k0, v0⟩ := kv
-    by_cases h0 : k0 = k
-    · simp [Row.set, h0, Row.get?]
-    · simp [Row.set, h0, Row.get?, ih]
-
 /-- add_field: the new field is appended to the schema, every row gets it with the default
 value, every other value is untouched, lockstep is kept -/
 theorem C15_add_appended (f : Field) (v : Val) (r : Res) (h : Lockstep r) :
